@@ -2,7 +2,7 @@ import corr_construct
 import corr_transform
 import oracle_tree
 
-SPEC = {'statement': 'field_positions (golden offset/width/conversion of every live field of the fixed-size leader records), dataset_summary / radiometric_data / transformations (for EVERY file content the group is the frozen documented tree evaluated on the parsed record), framing, numeric_text', 'rule': 'correspondence: leader layout parse and the per-record transform functions vs the models; oracle: every field given random admissible values at once (E/F notation, padding, signs, extremes), 1..136 attitude points, 1..16 channels, map projection absent or each designator, compared with the frozen provenance spec over all ~900 fields; distinct = distinct product seed', 'partial': 'attitude, data-quality (dynamic counts), platform-position and map-projection pipelines: layout theorems + correspondence + oracle only; text->binary64 (float()) and x*1e24 are CPython/IEEE contracts checked exactly by the harness', 'assumptions': []}
+SPEC = {'statement': 'metadata: for EVERY leader file that parses, transform_metadata (which records become groups and under which names, the seven record pipelines, the attitude time fix-up) yields the frozen documented /metadata tree evaluated on the parsed leader record - every leaf is the documented field (path), with the documented name, dims, unit attributes and group path, and there are no other leaves; per-record theorems dataset_summary / radiometric_data / transformations / platform_position / map_projection (per designator class) / attitude (every n >= 1) / data_quality_summary (1..16 channels); field_positions (golden offset/width/conversion of every live field of the fixed-size leader records); framing; numeric_text', 'rule': 'correspondence: leader layout parse, the per-record transform functions and transform_metadata on whole leader files vs the models; oracle: every field given random admissible values at once (E/F notation, padding, signs, extremes, leap-second stamps), 1..136 attitude points, 1..16 channels, map projection absent or each designator, compared with the frozen provenance spec over all ~900 fields; distinct = distinct product seed', 'partial': 'text->binary64 (float()), x*1e24, strptime / timedelta(seconds=float) of the first-point time and numpy timedelta arithmetic are CPython / IEEE / numpy contracts, evaluated exactly by the harness (the model keeps the operands)', 'assumptions': ['0 attitude points / 0 channels are inadmissible (the code raises); stated as hypotheses 0 < na, 0 < nc of `metadata`']}
 
 
 def corr_layouts(seed, tier):
